@@ -52,7 +52,7 @@ from gen import F, enc_label, dec_label, LabelTable
 
 warnings.simplefilter("ignore")
 
-POOL = [0, 1, 2, 3, 4, 5, 6, 7, 'a', 'b', 'c', 'x0', ('t', 1), ('t', 2)]     # 4, 6: where resolve_label_conflict starts counting
+POOL = [0, 1, 2, 3, 4, 5, 6, 7, 'a', 'b', 'c', 'x0', ('t', 1), ('t', 2), 'ab', 'ba']     # 4, 6: where resolve_label_conflict starts counting
 FRESH = [10, 11, 12, 'n0', 'n1', 'n2', ('t', 3), ('u', 0)]
 VTC = {'SPIN': 'SPIN', 'BINARY': 'BINARY', 'INTEGER': 'INTEGER', 'DISCRETE': 'INTEGER', 'REAL': 'REAL'}
 FIELD_ID = {'f0': 0, 'f1': 1, 'g0': 10, 'g1': 11, 'g2': 12}
@@ -142,15 +142,25 @@ def gen_spec(rng, nmax=5, rows=(0, 1, 2, 3, 4, 6, 8)):
     k = rng.randint(1, 3)
     distinct = [[vf() for _ in range(n)] for _ in range(k)]
     srows = [list(rng.choice(distinct)) if rng.random() < 0.8 else [vf() for _ in range(n)] for _ in range(nrows)]
-    edt = rng.choice(['float64', 'float64', 'float64', 'int64'])
-    if edt == 'int64':
+    # unsigned / boolean record fields (round-6 miss C14 r6m1: np.diff wraps on unsigned and is XOR on bool fields, so a
+    # 'record already sorted' shortcut misjudges them): energies and num_occurrences as uint, an extra vector as bool / uint8
+    edt = rng.choice(['float64', 'float64', 'float64', 'int64', 'float64', 'float64', 'int64', 'uint8'])
+    if edt == 'uint8':
+        en = [str(rng.randint(0, 5)) for _ in range(nrows)]
+    elif edt == 'int64':
         en = [str(rng.randint(-2, 3)) for _ in range(nrows)]
     else:
         en = [str(rng.choice(ENERGIES)) for _ in range(nrows)]
     occ = [rng.choice([1, 1, 2, 3, 0]) for _ in range(nrows)]
     fields = rng.choice([[], [], ['f0'], ['f0', 'f1']])
     extra = {f: [str(rng.choice(ENERGIES)) for _ in range(nrows)] for f in fields}
+    fdtype = {}
+    for f in fields:
+        if rng.random() < 0.3:
+            fdtype[f] = rng.choice(['bool', 'uint8'])
+            extra[f] = [str(rng.randint(0, 1 if fdtype[f] == 'bool' else 4)) for _ in range(nrows)]
     return {"vartype": vt, "labels": [enc_label(l) for l in labels], "sdtype": sdtype, "edtype": edt,
+            "odtype": rng.choice(['int64', 'int64', 'int64', 'uint16', 'uint8']), "fdtype": fdtype,
             "rows": srows, "energy": en, "occ": occ, "fields": fields, "extra": extra,
             "info": rng.choice([0, 0, 7, 9]), "sort_labels": rng.random() < 0.6,
             "agg": rng.random() < 0.15, "vform": rng.choice(['str', 'str', 'enum', 'set'])}
@@ -198,7 +208,9 @@ def gen_op(rng, kind=None):
                 "bad": rng.random() < 0.12, "dup": rng.random() < 0.08, "shuffle": ri()}
     if k == 'drop':
         return {"op": k, "idx": [ri() for _ in range(rng.randint(0, 3))], "absent": rng.random() < 0.3,
-                "form": rng.choice(['list', 'set'])}
+                # every iterable of labels, a str of one-character labels included ('ab' names 'a' and 'b', not the label
+                # 'ab': membership in a str is a substring test; round-6 miss C14 r6m2)
+                "form": rng.choice(['list', 'set', 'tuple', 'iter', 'vars', 'dictkeys', 'str', 'str'])}
     if k == 'append_vars':
         return {"op": k, "labels": [enc_label(x) for x in rng.sample(FRESH, rng.randint(0, 3))],
                 "rows": rng.choice(['one', 'one', 'all', 'all', 'bad']), "form": rng.choice(['tuple', 'dict', 'sampleset']),
@@ -313,8 +325,8 @@ def build(spec, ctx, labels=None, vartype=None, sdtype=None, edtype=None, field_
         if name == 'tag':
             vecs['tag'] = np.array(tags, dtype=np.int64)
         else:
-            vecs[name] = np.array([float(F(x)) for x in spec["extra"][name]], dtype=np.float64)
-    ss = dimod.SampleSet.from_samples((arr, labels), vt, energy=en, num_occurrences=np.array(spec["occ"], dtype=np.int64),
+            vecs[name] = np.array([float(F(x)) for x in spec["extra"][name]], dtype=(spec.get("fdtype") or {}).get(name, 'float64'))
+    ss = dimod.SampleSet.from_samples((arr, labels), vt, energy=en, num_occurrences=np.array(spec["occ"], dtype=spec.get("odtype", 'int64')),
                                       info=info_of(spec["info"]), sort_labels=spec["sort_labels"] if sort_labels is None else sort_labels,
                                       **kw, **vecs)
     return ss, tags
@@ -544,7 +556,12 @@ def do_step(op, ss, ctx, case_rng_seed):
         vs = [labels[i % n] for i in op["idx"]] if n else []
         if op["absent"]:
             vs = vs + ['nope']
-        arg = set(vs) if op["form"] == 'set' else list(vs)
+        form = op["form"]
+        if form == 'str' and not (vs and all(isinstance(v, str) and len(v) == 1 for v in vs)):
+            form = 'list'
+        arg = (set(vs) if form == 'set' else tuple(vs) if form == 'tuple' else iter(list(vs)) if form == 'iter'
+               else Variables(dict.fromkeys(vs)) if form == 'vars' else dict.fromkeys(vs).keys() if form == 'dictkeys'
+               else ''.join(vs) if form == 'str' else list(vs))
         return f"(ODrop {clist([cnat(T.idx(v)) for v in vs])})", (lambda: dimod.drop_variables(ss, arg))
     if k == 'append_vars':
         rng = random.Random(op["seed"] * 7919 + case_rng_seed)
@@ -697,6 +714,8 @@ def run_seq(c):
             labels_now = list(ss.variables)
             if not labels_now:
                 continue                  # numpy.ma cannot stack the zero-width sample field
+            if any(ss.record.dtype[nm].kind in 'bu' for nm in extra_names(ss)):
+                continue                  # a fill value is cast to the (bool / unsigned) dtype of the field it fills: NumPy's cast, not modelled
             cur_vt = ss.vartype.name
             others, terms = [], []
             for o in op["others"]:
